@@ -112,6 +112,15 @@ class Spec:
             out.append(["filter", names[1:]])
         if len(names) < MAX_VARS and "e1" not in names:
             out.append(["extend"])
+        # calls the class must refuse: the space must stay consistent after the refusal
+        if "bad" not in names:
+            out.append(["add_bad"])
+        if names:
+            out.append(["add_dup", names[0]])
+            out.append(["set_cur_bad"])
+            out.append(["set_lb_bad", names[-1]])
+            out.append(["filter_dim_bad", names[0]])
+            out.append(["filter_bad", names[:1]])
         out += [["init_missing"], ["toggle_int"]]
         if names:
             out += [["q_norm"], ["q_bounds"], ["q_cur"], ["q_member"], ["q_project"], ["set_cur_arr"], ["set_cur_dict"]]
@@ -176,6 +185,21 @@ class Spec:
             other = _mk()
             other.add_variable("e1", 2, "float", np.array([0.0, -1.0]), np.array([2.0, -1.0]), np.array([1.0, -1.0]))
             ds.extend(other)
+        elif k == "add_bad":  # the value is outside the bounds
+            ds.add_variable("bad", 2, "float", 0.0, 1.0, np.array([0.5, 3.0]))
+        elif k == "add_dup":
+            ds.add_variable(op[1], 1, "float", 0.0, 1.0, 0.5)
+        elif k == "set_cur_bad":
+            ds.set_current_value(np.zeros(ds.dimension + 1))
+        elif k == "set_lb_bad":
+            ub = ds.get_upper_bound(op[1])
+            if not np.isfinite(ub).all():
+                raise Rejected("no finite upper bound to exceed")
+            ds.set_lower_bound(op[1], ub + 1.0)
+        elif k == "filter_dim_bad":
+            ds.filter_dimensions(op[1], [ds.get_size(op[1])])
+        elif k == "filter_bad":
+            ds.filter([*op[1], "no_such_variable"])
         elif k == "init_missing":
             ds.initialize_missing_current_values()
         elif k == "toggle_int":
